@@ -123,6 +123,14 @@ class ClassV(Val):
         self.ci = ci
 
 
+class LambdaV(Sym):
+    """A lambda expression: renders as its source text (like any opaque symbol) but can be applied when it is called by name."""
+    def __init__(self, text, fi, closure_env):
+        Sym.__init__(self, text)
+        self.fi = fi
+        self.closure_env = closure_env
+
+
 # --------------------------------------------------------------------------------------------- rendering
 def _hex(b):
     return ''.join('%02x' % c for c in b)
@@ -848,7 +856,46 @@ class Frame(object):
         d = self.decide(node.test, st)
         if d is False:
             return self.block(node.orelse, st)
+        if d is True:
+            r = self._unroll_counted_while(node, st)
+            if r is not None:
+                return r
         return self._summarise_loop(node, st, 'while ' + self.text(node.test, st), '_', None)
+
+    def _unroll_counted_while(self, node, st, limit=512):
+        """A while loop whose test reads only locals that hold integer constants (a counter) is followed iteration by iteration, as
+        long as every iteration has one path and the test stays decided; otherwise None (the caller summarises the loop as before)."""
+        names = [n.id for n in ast.walk(node.test) if isinstance(n, ast.Name)]
+        if not names or not all(isinstance(st.env.get(n), Const) and type(st.env[n].value) in (int, bool) for n in names):
+            return None
+        cur = st.fork()
+        for _ in range(limit):
+            d = self.decide(node.test, cur)
+            if d is False:
+                outs = self.block(node.orelse, cur)
+                break
+            if d is not True:
+                return None
+            outs = self.block(node.body, cur)
+            if len(outs) != 1:
+                return None
+            cur, status = outs[0]
+            if status == 'break':
+                outs = [(cur, 'normal')]
+                break
+            if status in ('return', 'raise'):
+                break
+        else:
+            return None
+        # the walk happened on a copy: adopt its result as this path's state
+        final = []
+        for s2, status in outs:
+            if s2 is cur:
+                st.__dict__.update(s2.__dict__)
+                final.append((st, status))
+            else:
+                final.append((s2, status))
+        return final
 
     def _bname(self, node):
         k = self.bindex.get(id(node), 0)
@@ -1201,6 +1248,16 @@ class Frame(object):
             if f is not None:
                 return Sym(path, cls=None)
             return Sym(path)
+        if node.attr == '__contains__' and isinstance(base, ListV) and base.elems and all(isinstance(e, Const) for e in base.elems):
+            try:        # the bound method of a literal collection is the predicate `x in <collection>`
+                lam = ast.parse('lambda _x: _x in %s' % bt, mode='eval').body
+                ast.copy_location(lam, node)
+                ast.fix_missing_locations(lam)
+                v = self.ev_Lambda(lam, st)
+                v.text = path
+                return v
+            except SyntaxError:
+                pass
         if node.attr == 'hasher':
             return Hasher(bt)
         cls = base.cls if isinstance(base, (Sym, Obj)) else None
@@ -1244,7 +1301,13 @@ class Frame(object):
         if owner is None:
             return None
         fr = Frame(self.I, FunctionInfo(ast.parse('def _f(): pass').body[0], owner.module, owner), self.depth)
-        elems = [fr.ev(e, State()) for e in inner.elts]
+        st0 = State()
+        for k, v in owner.attrs.items():          # other literal constants of the class body are in scope there
+            try:
+                st0.env[k] = Const(ast.literal_eval(v))
+            except Exception:
+                pass
+        elems = [fr.ev(e, st0) for e in inner.elts]
         if not all(isinstance(e, Const) for e in elems):
             return None
         return ListV(elems, 'set' if isinstance(inner, ast.Set) else 'tuple')
@@ -1290,7 +1353,13 @@ class Frame(object):
         return Sym('*' + self.text(node.value, st))
 
     def ev_Lambda(self, node, st):
-        return Sym(ast.unparse(node))
+        try:
+            fd = ast.FunctionDef(name='<lambda>', args=node.args, body=[ast.Return(value=node.body)], decorator_list=[], returns=None, type_params=[])
+            ast.copy_location(fd, node)
+            ast.fix_missing_locations(fd)
+            return LambdaV(ast.unparse(node), FunctionInfo(fd, self.module, None, outer=self.fi), st.env)
+        except Exception:       # pragma: no cover
+            return Sym(ast.unparse(node))
 
     def _map_known(self, node, st):
         """[f(x) for x in L] with L a known list: map element-wise (EachV elements are mapped inside)."""
@@ -1537,6 +1606,11 @@ class Frame(object):
             st.calls.append((ft, [render(a) for a in args], {k: render(v) for k, v in kwargs.items()}, node.lineno, node))
             st.events.append(('call', ft, [render(a) for a in args], {k: render(v) for k, v in kwargs.items()}, node.lineno))
 
+        # ---- operator.itemgetter(k1, k2..)(d) is (d[k1], d[k2]..)
+        if isinstance(func, ast.Call) and dotted(func.func) in ('operator.itemgetter', 'itemgetter') and func.args and len(node.args) == 1 and \
+                not node.keywords and not func.keywords:
+            items = [self.ev(ast.copy_location(ast.Subscript(value=node.args[0], slice=k, ctx=ast.Load()), node), st) for k in func.args]
+            return items[0] if len(items) == 1 else ListV(items, 'tuple')
         # ---- method calls on interpreted values
         if isinstance(func, ast.Attribute):
             recv = self.ev(func.value, st)
@@ -1646,13 +1720,15 @@ class Frame(object):
                         return r
                     return Sym('%s.%s(%s)' % (render(recv), meth, self._argtext(args, kwargs)))
             record(ftext)
+            if meth == 'get' and len(args) in (1, 2) and not kwargs and '%s[%s]' % (render(recv), render(args[0])) in st.env:
+                return st.env['%s[%s]' % (render(recv), render(args[0]))]          # d.get(k) of an entry the scenario / path knows
             return self._opaque_call(ftext, args, kwargs, recv, meth)
 
         # ---- plain names
         if isinstance(func, ast.Name):
             n = func.id
             callee = st.env.get(n)
-            if isinstance(callee, FuncV):
+            if isinstance(callee, (FuncV, LambdaV)):
                 record(n)
                 r = self._maybe_inline(callee.fi, None, args, kwargs, st, node, closure=callee.closure_env, force=True)
                 if r is not None:
@@ -1683,6 +1759,8 @@ class Frame(object):
                         return Const(sum(len(i[1]) for i in its))
                 if isinstance(a, ListV):
                     return Const(len(a.elems))
+                if isinstance(a, Const) and isinstance(a.value, (str, bytes, bytearray, tuple)):
+                    return Const(len(a.value))
                 return Sym('len(%s)' % render(a))
             if n in ('int', 'bool', 'str') and len(args) == 1 and isinstance(args[0], Const) and \
                     not isinstance(args[0].value, Enum):
